@@ -362,13 +362,11 @@ func genMsgHist(r *Rng) MInput {
 						mulFrac(bases[p], 2, 1).String(), mulFrac(bases[p], 10, 1).String(), mulFrac(bases[p], 99, 100).String()}[r.Intn(5)]})
 				}
 			}
-			switch r.Pick(100, noise, noise, noise) {
+			switch r.Pick(100, noise, 7, noise) {
 			case 1: // a pair that is not whitelisted: the reveal is refused
 				ts = append(ts, Tuple{P: r.Intn(nPairs), R: bases[0].String()})
-			case 2: // the same pair twice: the rates string does not parse
-				if len(ts) > 0 {
-					ts = append(ts, ts[r.Intn(len(ts))])
-				}
+			case 2: // one pair named more than once in ONE vote string (adjacent / non-adjacent / three times, same or other rate)
+				ts = repeatPair(r, ts, bases, in.WL)
 			case 3: // at / just above the 315-bit limit of ValidateBasic
 				if len(ts) > 0 {
 					lim := new(big.Int).Lsh(big.NewInt(1), 315)
@@ -400,6 +398,52 @@ func genMsgHist(r *Rng) MInput {
 		in.Rates = append(in.Rates, Rate{P: in.WL[0], R: bases[in.WL[0]].String(), C: 0})
 	}
 	return in
+}
+
+// repeatPair makes one vote name a pair more than once: right after its first occurrence, with another pair in between,
+// or three times; the repeated tuple carries the same rate, another positive rate or an abstention.  The parser must refuse
+// every such string; if it does not, that validator must still count once for the pair.
+func repeatPair(r *Rng, ts []Tuple, bases []*big.Int, wl []int) []Tuple {
+	if len(ts) == 0 {
+		return ts
+	}
+	j := r.Intn(len(ts))
+	dup := ts[j]
+	switch r.Pick(5, 3, 2) {
+	case 1:
+		dup.R = mulFrac(bases[dup.P], int64(r.Range(1, 30)), 10).String()
+	case 2:
+		dup.R = genAbstain(r)
+	}
+	out := append([]Tuple{}, ts...)
+	insertAt := func(l []Tuple, i int, t Tuple) []Tuple {
+		l = append(l, Tuple{})
+		copy(l[i+1:], l[i:])
+		l[i] = t
+		return l
+	}
+	apart := func(l []Tuple) []Tuple { // another pair between the two occurrences
+		switch {
+		case len(l) == 1:
+			for _, p := range wl {
+				if p != dup.P {
+					return []Tuple{l[0], {P: p, R: bases[p].String()}, dup}
+				}
+			}
+			return append(l, dup) // a single-pair whitelist: only the adjacent form exists
+		case l[len(l)-1].P != dup.P:
+			return append(l, dup)
+		default:
+			return insertAt(l, 0, dup)
+		}
+	}
+	switch r.Pick(3, 5, 2) {
+	case 0:
+		return insertAt(out, j+1, dup)
+	case 1:
+		return apart(out)
+	}
+	return apart(insertAt(out, j+1, dup))
 }
 
 func msgOpeners() []MInput {
@@ -438,6 +482,36 @@ func msgOpeners() []MInput {
 		Steps: []MStep{{Msgs: []MMsg{{Kind: "delegate", Val: 0, VSp: "u", Feeder: 2, FSp: "u"},
 			pv(0, "l", 2, "u", 5), pv(1, "x", 1, "l", 6), pv(1, "u", 1, "l", 6)}, Jump: "period"},
 			{Msgs: []MMsg{vt(0, "u", 2, "l", 5), vt(1, "l", 3, "l", 6), vt(1, "u", 1, "u", 6), vt(1, "u", 1, "u", 6)}, Jump: "period"}}})
+	// ONE vote naming a pair twice with another pair in between, (p0,1)|(p1,5)|(p0,1), next to 100,200,300,400: the weighted median
+	// of the five validators' votes is 200 (a validator tallied twice would make it 100)
+	pvT := func(v int, ts []Tuple) MMsg {
+		return MMsg{Kind: "prevote", Val: v, VSp: "l", Feeder: v, FSp: "l", Salt: "1", T: ts, HFor: v, HSp: "l"}
+	}
+	vtT := func(v int, ts []Tuple) MMsg {
+		return MMsg{Kind: "vote", Val: v, VSp: "l", Feeder: v, FSp: "l", Salt: "1", T: ts}
+	}
+	rep := []Tuple{{0, five(1)}, {1, five(5)}, {0, five(1)}}
+	s1, s2 = MStep{Msgs: []MMsg{}, Jump: "period"}, MStep{Msgs: []MMsg{}, Jump: "period"}
+	for i, r := range []int64{100, 200, 300, 400} {
+		s1.Msgs = append(s1.Msgs, pvT(i, []Tuple{{0, five(r)}}))
+		s2.Msgs = append(s2.Msgs, vtT(i, []Tuple{{0, five(r)}}))
+	}
+	s1.Msgs = append(s1.Msgs, pvT(4, rep))
+	s2.Msgs = append(s2.Msgs, vtT(4, rep))
+	out = append(out, MInput{Kind: "msg", Vals: []Val{ten, ten, ten, ten, ten}, Params: p, WL: []int{0, 1}, Rates: []Rate{}, Steps: []MStep{s1, s2}})
+	// MinVoters 2, threshold 0.34 of 50: one validator naming the pair twice (different rates) is ONE voter with 10 units: no quorum
+	p2 := p
+	p2.MinV = 2
+	p2.Thr = "340000000000000000"
+	rep2 := []Tuple{{0, five(10)}, {1, five(5)}, {0, five(1000)}}
+	out = append(out, MInput{Kind: "msg", Vals: []Val{ten, ten, ten, ten, ten}, Params: p2, WL: []int{0, 1}, Rates: []Rate{},
+		Steps: []MStep{{Msgs: []MMsg{pvT(0, rep2)}, Jump: "period"}, {Msgs: []MMsg{vtT(0, rep2)}, Jump: "period"}}})
+	// adjacent repeat, and a pair named three times (adjacent and apart, other rate); a third validator votes normally
+	adj := []Tuple{{0, five(7)}, {0, five(7)}}
+	tri := []Tuple{{0, five(8)}, {0, five(9)}, {1, five(5)}, {0, five(8)}}
+	out = append(out, MInput{Kind: "msg", Vals: []Val{one, one, one}, Params: p2, WL: []int{0, 1}, Rates: []Rate{},
+		Steps: []MStep{{Msgs: []MMsg{pvT(0, adj), pvT(1, tri), pvT(2, []Tuple{{0, five(9)}})}, Jump: "period"},
+			{Msgs: []MMsg{vtT(0, adj), vtT(1, tri), vtT(2, []Tuple{{0, five(9)}})}, Jump: "period"}}})
 	return out
 }
 
